@@ -97,6 +97,33 @@ def run_word(ctx, spec):
     _outcome(ctx, 'repeated-word' + ('/custom-sizes' if custom else ''),
              flagged and {p, qq} <= facs, n,
              {'w': w, 'nbits': nbits, 'dev': dev})
+  # corner cells, every shard: the largest default word sizes that the
+  # property admits for a modulus length (w <= bits/16), 32 deviating low
+  # bits, also for lengths between the usual ones; and user lists in which the
+  # word size divides a larger size that the length cap excludes
+  for ci, nbits in enumerate([1024, 1100, 1536, 2048] + (
+      [] if ctx.tier == 'quick' else [3072, 4096])):
+    ws = [w for w in rsagen.PATTERN_SIZES if w <= nbits // 16]
+    for w in ws[-2:]:
+      for custom in (False, True):
+        if not ctx.want('corner/%d/%d/%d' % (nbits, w, custom)) or ctx.spent():
+          continue
+        if (ci + w + custom + int(spec['shard'][-1])) % 2:
+          continue          # two shards share a cell
+        got = rsagen.patterned_prime(rng, nbits // 2, w, dev_bits=32)
+        if got is None:
+          continue
+        p, word = got
+        qq = rsagen.rand_prime_top2(rng, nbits - nbits // 2)
+        n = p * qq
+        chk = rs.CheckBitPatterns(pattern_sizes=rng.choice(
+            [[w, 4 * w], [w, 2 * w, 8 * w], [2 * w * 8, w]])) if custom \
+            else dflt
+        flagged, facs = _run(ctx, chk, n)
+        ctx.count('word_corner_cells')
+        _outcome(ctx, 'repeated-word' + ('/custom-sizes' if custom else ''),
+                 flagged and {p, qq} <= facs, n,
+                 {'w': w, 'nbits': nbits, 'dev': 32, 'corner': True})
   try:
     ctx.sample({'family': 'one prime repeats a w-bit word', 'w': w,
                 'nbits': nbits, 'p': p})
@@ -450,7 +477,7 @@ def finalize(agg, tier):
             'hit:smooth/both/maxpow', 'hit:smooth/user-bound',
             'hit:smooth/cofactor',
             'pollard_product_observed', 'decoy_instances_built',
-            'lhw_corner_moduli', 'instance_history:1',
+            'lhw_corner_moduli', 'word_corner_cells', 'instance_history:1',
             'instance_history:2', 'instance_history:3'):
     if not c.get(k):
       inc.append('reach counter %s is zero' % k)
